@@ -56,6 +56,7 @@ class DetectionMonitor(Monitor):
         self.rx = {}            # (X idx, X inc, P ident) -> local counter of X at last TICK reception
         self.state = {}         # (X idx, X inc, P ident) -> last state name
         self.failed_calls = {}  # (X idx, X inc, P ident) -> time of last failed call
+        self.checking_at = {}   # (X idx, X inc, P ident) -> time at which X last moved P to CHECKING
         self.due = {}           # (X idx, X inc, P ident) -> local tick at which P had to be non active; checks pending
         self.last_tick = {}     # X idx -> ticks_sent seen
         self.flags = set()
@@ -100,6 +101,8 @@ class DetectionMonitor(Monitor):
         new = new_state.name
         self.state[key] = new
         w = inst.world
+        if new == 'CHECKING':
+            self.checking_at[key] = w.now
         if new != 'RUNNING':
             self.pending_fail.pop(key, None)
         if prev == 'FAILED' and new == 'STOPPED' and self.auto_fence and identifier != inst.identifier:
@@ -124,6 +127,11 @@ class DetectionMonitor(Monitor):
             if self.tracker is not None and peer is not None:
                 rec = self.tracker.checked.get((inst.idx, identifier))
                 restarted = rec is not None and rec != peer.incarnation
+            # a restart that took place while the handshake was in progress (the TICK that opened it came from the
+            # previous incarnation, the answers from the new one whose TICK counter starts again from 0)
+            t_check = self.checking_at.get(key)
+            if not restarted and peer is not None and t_check is not None:
+                restarted = any(rec[1] == 'crash' and rec[2] == peer.idx and rec[0] >= t_check - 1.0 for rec in w.log)
             failed_call = self.failed_calls.get(key) is not None and w.now - self.failed_calls[key] <= 6.0
             dead = peer is None or not peer.alive
             self.flags.add('running-peer-lost')
